@@ -425,10 +425,14 @@ pub fn make_module() -> KMap {
                 let l = l.clone();
                 let f = f.clone();
 
-                for value in l.data_mut().iter_mut() {
-                    *value = match ctx.vm.call_function(f.clone(), value.clone()) {
-                        Ok(result) => result,
-                        Err(error) => return Err(error),
+                for index in 0..l.len() {
+                    // The function may access the list, so its data can't be borrowed during the call
+                    let Some(value) = l.data().get(index).cloned() else {
+                        break;
+                    };
+                    let result = ctx.vm.call_function(f.clone(), value)?;
+                    if let Some(value) = l.data_mut().get_mut(index) {
+                        *value = result;
                     }
                 }
 
